@@ -393,6 +393,21 @@ class DiskLayout:
                 okd = okd & (x == y)
             env.ensure(clause + ":data", okd, ("C07",), sig("data-content@%d" % j))
 
+    def _features(self, image, wants):
+        """root-cause features of a cell's image for failure signatures: is some chain physically non-adjacent, is there an
+        empty file, does some ML trailer straddle a granule end"""
+        adj = "yes"
+        try:
+            for e in db.entries(image):
+                ch, _ = db.chain(image, e["first"])
+                if any(db.offset(b) != db.offset(a) + db.GRANULE for a, b in zip(ch, ch[1:])):
+                    adj = "no"
+        except Exception:  # noqa
+            adj = "unknown"
+        empty = "yes" if any(len(w[6]) == 0 for w in wants) else "no"
+        strad = "yes" if any(w[2] == 2 and (len(w[6]) + 10) % 2304 in (1, 2, 3, 4) for w in wants) else "no"
+        return "adj=%s,empty=%s,straddle=%s" % (adj, empty, strad)
+
     def _granules_used(self, image):
         return sum(1 for g in range(68) if image[db.FAT_OFFSET + g] != 0xFF)
 
@@ -414,6 +429,8 @@ class DiskLayout:
             return
         image = F.get(d, "buffer")
         image = list(image)
+        if native:
+            sigpfx = sigpfx + "/" + self._features(image, [w])
         fs = self._check_image(env, image, [w], native, sigpfx)
         T = L + (10 if kind == "ML" else 3 if kind == "BASIC" else 0)
         mn = max(1, -(-T // 2304))
@@ -444,6 +461,8 @@ class DiskLayout:
                      (lambda: "%s:writer-raised:%s" % (sigpfx, e.cls)) if native else None)
             return
         image = list(F.get(d, "buffer"))
+        if native:
+            sigpfx = sigpfx + "/" + self._features(image, [f[1] for f in files])
         self._check_image(env, image, [f[1] for f in files], native, sigpfx)
         self._read_back(env, F, image, [f[1] for f in files], native, sigpfx)
 
@@ -456,6 +475,8 @@ class DiskLayout:
         w = ("FOREIGN", "BIN", ftype, dtype, load, exe, data)
         T = L + (10 if kind == "ML" else 3 if kind == "BASIC" else 0)
         sigpfx = "foreign/%s/len%%2304=%d/%s" % (kind, T % 2304, order)
+        if native:
+            sigpfx = sigpfx + "/" + self._features(image, [w])
         self._read_back(env, F, image, [w], native, sigpfx, clause="C07:foreign")
 
     def k_fill(self, env, cell, F, native):
